@@ -29,15 +29,18 @@ ASSUME = [
 def configs(tier):
     q = tier == "quick"
     c = []
+    # the complete small products first (seconds).  tp=tls only so that the certificate directory is passed; the
+    # static cells visit every transport themselves
+    c.append(("tp=tls,mode=static,part=all", 0))
+    c.append(("tp=tls,mode=static,part=all", 0, "asan"))
     for tp, tls in (("tcp", 0), ("btcp", 0), ("tls", 1), ("btls", 1), ("utlstls", 1)):
         # singles with every deviation pattern <= D; ordered pairs of tcp.* sets; pairs over all attributes
         c.append(("tp=%s,mode=hist,depth=1,menu=0x%x" % (tp, 0xfff), (0 if tls else 1) if q else (2 if tls else 3)))
-        c.append(("tp=%s,mode=hist,depth=2,tcponly=1" % tp, 0 if q or tls else 1))
+        if not (q and tp in ("btls", "utlstls")):      # quick: the pair histories of the TLS class on tls only
+            c.append(("tp=%s,mode=hist,depth=2,tcponly=1" % tp, 0 if q or tls else 1))
         if not q:
             c.append(("tp=%s,mode=hist,depth=2" % tp, 0))
-        c.append(("tp=%s,mode=accept,depth=2" % tp, (0 if tls else 1) if q else (1 if tls else 2)))
-    c.append(("tp=tcp,mode=static,part=all", 0))
-    c.append(("tp=tcp,mode=static,part=all", 0, "asan"))
+        c.append(("tp=%s,mode=accept,depth=%d" % (tp, 1 if q and tls else 2), (0 if tls else 1) if q else (1 if tls else 2)))
     return c
 
 
